@@ -298,3 +298,10 @@ package panos
 // not) (structural guard on the argument order).
 //vc:func (*rulesPair).markServices
 //vc:  assert[C03] at "ab.servicesEq(" @groupMembersComparedByName arg1 == g.Members && arg2 == sA.Members
+
+// equalize: the source list of the device rule is equalized with the source
+// list of the Netspoc rule under .../source, destination with destination under
+// .../destination (no crossing of lists or paths).
+//vc:func (*rulesPair).equalize
+//vc:  assert[C03] at "equalizeList(a.panRuleSrc" @sourceUnderItsPath arg2 == rulePath + "/source"
+//vc:  assert[C03] at "equalizeList(a.panRuleDst" @destinationUnderItsPath arg2 == rulePath + "/destination"
